@@ -683,9 +683,29 @@ def _accumulates(ctx, g, single):
     f_ok = any(isinstance(n, ast.AugAssign) and isinstance(n.op, ast.BitOr)
                and src(n.target) == facc and src(n.value) == fv
                for n in own_nodes_of(lp))
-    # nothing else rebinds the accumulators inside the loop
-    other = [n for n in own_nodes_of(lp) if isinstance(n, ast.Assign)
-             and any(src(t) in (racc, facc) for t in n.targets)]
+    # nothing else rebinds or edits the accumulators: the only definitions
+    # are their empty initialisations before the loop and the accumulation
+    # inside it (a later "simplification" of the collected groups changes
+    # which providers match)
+    other = []
+    for n in own_nodes(g.node):
+        if isinstance(n, ast.Assign) and any(
+                src(t) in (racc, facc) for t in n.targets):
+            empty = isinstance(n.value, (ast.List, ast.Set, ast.Tuple)) and \
+                not n.value.elts or (isinstance(n.value, ast.Call) and src(
+                    n.value.func) in ('set', 'list') and not n.value.args)
+            if not (empty and cfgmod.cfg_of(g).dominates(n, lp)):
+                other.append(n)
+        if isinstance(n, ast.AugAssign) and src(n.target) in (
+                racc, facc) and not any(n is x for x in own_nodes_of(lp)):
+            other.append(n)
+        if isinstance(n, ast.Call) and isinstance(
+                n.func, ast.Attribute) and src(n.func.value) in (
+                    racc, facc) and n.func.attr in (
+                        'remove', 'pop', 'clear', 'discard', 'insert',
+                        'difference_update', 'intersection_update',
+                        'sort', 'reverse') :
+            other.append(n)
     return (r_ok and f_ok and not other,
             'required side accumulated: %s, forbidden side united: %s%s' % (
                 r_ok, f_ok, ', accumulator rebound' if other else ''))
